@@ -133,8 +133,13 @@ func newWorld(requester, otherAccess hotline.AccessBitmap) (*world, error) {
 	mustWrite(filepath.Join(r, "Drop Box", "secret.txt"), "secret")
 	mustWrite(filepath.Join(r, "Uploads", "taken.bin"), "taken")
 	mustWrite(filepath.Join(r, "plain", "p.txt"), "p")
+	// partial uploads left behind (resume targets)
+	mustWrite(filepath.Join(r, "plain", "partial.bin.incomplete"), "part")
+	mustWrite(filepath.Join(r, "Uploads", "partial.bin.incomplete"), "part")
+	mustWrite(filepath.Join(r, "partial.bin.incomplete"), "part")
 	// aliases (what HandleMakeAlias creates: symlinks with absolute targets inside the root)
-	for _, a := range [][2]string{{"afile.txt", "alias_file"}, {"adir", "alias_dir"}, {"adir/inner.txt", "adir/alias_inner"}} {
+	for _, a := range [][2]string{{"afile.txt", "alias_file"}, {"adir", "alias_dir"}, {"adir/inner.txt", "adir/alias_inner"},
+		{"gone.txt", "alias_dangling"}, {"adir/gone", "adir/alias_dangling2"}} { // the last two: targets that no longer exist
 		if err := os.Symlink(filepath.Join(r, a[0]), filepath.Join(r, a[1])); err != nil {
 			ts.Close()
 			return nil, err
@@ -242,6 +247,7 @@ type row struct {
 	wantName    string // anyName rows: the name asked for
 	fallback    string // anyName rows: the name that must stay / be used instead
 	delayed     bool   // the handler may start a delayed goroutine (checked again 3.3 s later)
+	inert       bool   // the request names nothing that can be acted on: every requester gets an error reply, nothing changes
 	otherAccess []int  // bitmap of the other user's account
 	expect      string // with all privileges: "changed" | "data" | "reply" | "err" | "" (sanity of the row itself)
 	uploadName  string // for the two upload-anywhere messages
@@ -265,6 +271,10 @@ func fileTargetFields(kind string) []hotline.Field {
 		return []hotline.Field{fld(hotline.FieldFileName, []byte("alias_dir"))}
 	case "nestedAliasFile":
 		return []hotline.Field{fld(hotline.FieldFileName, []byte("alias_inner")), fld(hotline.FieldFilePath, fpath("adir"))}
+	case "danglingAlias": // an alias whose target was removed afterwards
+		return []hotline.Field{fld(hotline.FieldFileName, []byte("alias_dangling"))}
+	case "nestedDanglingAlias":
+		return []hotline.Field{fld(hotline.FieldFileName, []byte("alias_dangling2")), fld(hotline.FieldFilePath, fpath("adir"))}
 	case "missing":
 		return []hotline.Field{fld(hotline.FieldFileName, []byte("nope.txt"))}
 	case "root":
@@ -283,6 +293,8 @@ func modelKind(kind string) string {
 		return "file"
 	case "aliasFolder":
 		return "folder"
+	case "danglingAlias", "nestedDanglingAlias":
+		return "missing"
 	case "rootexplicit":
 		return "root"
 	}
@@ -307,17 +319,18 @@ func buildRows() []row {
 	uid := func(c *hotline.ClientConn) []byte { return c.ID[:] }
 
 	// ---- files
-	for _, k := range []string{"file", "folder", "nestedfile", "aliasFile", "aliasFolder", "nestedAliasFile", "missing", "root", "rootexplicit", "badPath"} {
+	for _, k := range []string{"file", "folder", "nestedfile", "aliasFile", "aliasFolder", "nestedAliasFile", "danglingAlias", "nestedDanglingAlias", "missing", "root", "rootexplicit", "badPath"} {
 		k := k
-		exp := map[string]string{"file": "changed", "folder": "changed", "nestedfile": "changed", "aliasFile": "changed", "aliasFolder": "changed", "nestedAliasFile": "changed", "missing": "err", "root": "err", "rootexplicit": "err"}[k]
-		add(row{name: "deleteFile/" + k, tokens: []string{"deleteFile", modelKind(k)}, governing: byKindBits(k, 0, 6), expect: exp,
+		inert := map[string]bool{"danglingAlias": true, "nestedDanglingAlias": true, "missing": true, "root": true, "rootexplicit": true}[k]
+		exp := map[string]string{"danglingAlias": "err", "nestedDanglingAlias": "err", "file": "changed", "folder": "changed", "nestedfile": "changed", "aliasFile": "changed", "aliasFolder": "changed", "nestedAliasFile": "changed", "missing": "err", "root": "err", "rootexplicit": "err"}[k]
+		add(row{name: "deleteFile/" + k, tokens: []string{"deleteFile", modelKind(k)}, governing: byKindBits(k, 0, 6), expect: exp, inert: inert,
 			build: func(w *world) hotline.Transaction { return tr(hotline.TranDeleteFile, fileTargetFields(k)...) }})
-		add(row{name: "moveFile/" + k, tokens: []string{"moveFile", modelKind(k)}, governing: byKindBits(k, 4, 8), expect: exp,
+		add(row{name: "moveFile/" + k, tokens: []string{"moveFile", modelKind(k)}, governing: byKindBits(k, 4, 8), expect: exp, inert: inert,
 			build: func(w *world) hotline.Transaction {
 				return tr(hotline.TranMoveFile, append(fileTargetFields(k), fld(hotline.FieldFileNewPath, fpath("movedest")))...)
 			}})
 		if k != "badPath" {
-			e2 := map[string]string{"file": "data", "folder": "data", "nestedfile": "data", "aliasFile": "data", "aliasFolder": "data", "nestedAliasFile": "data", "missing": "data", "root": "err", "rootexplicit": "err"}[k]
+			e2 := map[string]string{"danglingAlias": "data", "nestedDanglingAlias": "data", "file": "data", "folder": "data", "nestedfile": "data", "aliasFile": "data", "aliasFolder": "data", "nestedAliasFile": "data", "missing": "data", "root": "err", "rootexplicit": "err"}[k]
 			add(row{name: "getFileInfo/" + k, tokens: []string{"getFileInfo", modelKind(k)}, expect: e2,
 				build: func(w *world) hotline.Transaction { return tr(hotline.TranGetFileInfo, fileTargetFields(k)...) }})
 		}
@@ -427,6 +440,22 @@ func buildRows() []row {
 			add(row{name: "getFileNameList/" + p.name, tokens: []string{"getFileNameList", p.model}, governing: g, expect: map[bool]string{true: "reply", false: "data"}[p.name == "nestedPlain"],
 				build: func(w *world) hotline.Transaction { return tr(hotline.TranGetFileNameList, pf()...) }})
 		}
+	}
+	// resuming a partial upload (field 204 present, `<name>.incomplete` exists): same place rule as a fresh upload
+	for _, p := range []place{{"plain", "plain", fpath("plain")}, {"root", "plain", nil}, {"uploads", "uploads", fpath("Uploads")}} {
+		p := p
+		g := []int{1}
+		if p.model == "plain" {
+			g = []int{1, 25}
+		}
+		add(row{name: "uploadFile/resume/" + p.name, tokens: []string{"uploadFile", p.model, "0"}, governing: g, expect: "changed", uploadName: "partial.bin",
+			build: func(w *world) hotline.Transaction {
+				fs := []hotline.Field{fld(hotline.FieldFileName, []byte("partial.bin")), fld(hotline.FieldFileTransferOptions, []byte{0, 2})}
+				if p.path != nil {
+					fs = append(fs, fld(hotline.FieldFilePath, p.path))
+				}
+				return tr(hotline.TranUploadFile, fs...)
+			}})
 	}
 	add(row{name: "uploadFile/exists", tokens: []string{"uploadFile", "uploads", "1"}, governing: []int{1}, expect: "err", uploadName: "taken.bin",
 		build: func(w *world) hotline.Transaction {
@@ -686,12 +715,17 @@ func hasAll(b hotline.AccessBitmap, bits []int) bool {
 
 // invoke runs one (row, bitmap) on a fresh world and judges the immediate observation.
 // It returns the invocation when the world must be looked at again later (delayed rows), else closes it.
-func invoke(c *Case, r *row, b hotline.AccessBitmap) *invocation {
+func invoke(c *Case, r *row, b hotline.AccessBitmap) *invocation { return invokeAfter(c, r, b, b, nil) }
+
+// invokeAfter: the requester logs in holding `login`; then `history` runs (e.g. further sessions on the same
+// account and an administrator's set-user changing the account to `b`); then the request is made and judged
+// against `b`, the privileges the account holds at the time of the request.
+func invokeAfter(c *Case, r *row, login, b hotline.AccessBitmap, history func(w *world) string) *invocation {
 	oa := bmOf(2, 9)
 	if r.otherAccess != nil {
 		oa = bmOf(r.otherAccess...)
 	}
-	w, err := newWorld(b, oa)
+	w, err := newWorld(login, oa)
 	if err != nil {
 		c.Note("err", err.Error())
 		c.Disagree("fixture", "world could not be built")
@@ -717,6 +751,14 @@ func invoke(c *Case, r *row, b hotline.AccessBitmap) *invocation {
 		c.Note("bits", bmBits(b))
 	}
 	note()
+	if history != nil {
+		if problem := history(w); problem != "" {
+			c.Note("history_problem", problem)
+			c.Disagree("fixture-history", "the history before the request did not take effect: "+problem)
+			return nil
+		}
+		c.Note("logged_in_with", bmHex(login))
+	}
 	t := r.build(w)
 	inv.before = w.snap()
 	res, queued, pan := w.ts.Call(w.rq, t)
@@ -825,6 +867,17 @@ func invoke(c *Case, r *row, b hotline.AccessBitmap) *invocation {
 		// all governing privileges held (or none exist): never refused for lack of privilege
 		if denial {
 			c.Violation("refused-despite-privilege-"+r.name, "the request was refused for lack of privilege although the account holds the governing privilege(s): "+msg)
+		}
+	}
+	// a request that names nothing actionable (missing target, nothing named, an alias whose target is gone):
+	// whoever asks, the answer is an error and nothing changes — in particular no effect without any privilege check
+	if r.inert {
+		if changed || len(others) != 0 {
+			c.Note("diff", diffSnap(inv.before, after))
+			c.Violation("unprivileged-effect-"+r.name, "a request on a target that cannot be acted on changed server state / reached others (no privilege was checked)")
+		}
+		if !wellFormedErr() {
+			c.Violation("unprivileged-effect-"+r.name, "a request on a target that cannot be acted on was not answered with exactly one error reply")
 		}
 	}
 	// a denial, whenever it happens, must be inert
@@ -1005,7 +1058,7 @@ func c05Rows() []row {
 func init() {
 	props["C05"] = func(x *Ctx) {
 		rows := c05Rows()
-		x.rule = fmt.Sprintf("decision table: %d rows (all 43 registered handlers × target kinds file/folder/nested/alias to a file/alias to a folder/missing/root/bad path, category/bundle at depth 1..4/missing, upload folder/drop box/plain/root/nested, existing/missing account or user, protected/unprotected target × ban options, field-presence variants, multi-effect requests) × requester bitmaps (all-zero, all ones, each single privilege 0..40, all-but-one for every privilege governing a row of the same transaction type; thorough tier: all-but-one for each of 0..40 = 84 bitmaps); every invocation on its own real server with a file tree, account dir, threaded news, message board, ban file, 3 clients, 1 private chat; full before/after snapshot. thorough adds random bitmaps. non-trivial = invocation of a row that has a governing privilege (the handler reaches a guard); distinct = distinct (row, bitmap)", len(rows))
+		x.rule = fmt.Sprintf("decision table: %d rows (all 43 registered handlers × target kinds file/folder/nested/alias to a file/alias to a folder/missing/root/bad path, category/bundle at depth 1..4/missing, upload folder/drop box/plain/root/nested, existing/missing account or user, protected/unprotected target × ban options, field-presence variants, multi-effect requests) × requester bitmaps (all-zero, all ones, each single privilege 0..40, all-but-one for every privilege governing a row of the same transaction type; thorough tier: all-but-one for each of 0..40 = 84 bitmaps); every invocation on its own real server with a file tree, account dir, threaded news, message board, ban file, 3 clients, 1 private chat; full before/after snapshot. plus a family with three sessions on one account whose privilege is revoked / granted by an administrator's set-user before the request comes from the 1st / 2nd / 3rd session; thorough adds random bitmaps. non-trivial = invocation of a row that has a governing privilege (the handler reaches a guard); distinct = distinct (row, bitmap)", len(rows))
 		x.assume = []string{
 			"direct mode: handlers are called with ClientConns built like handleNewConnection builds them; the requester's in-memory bitmap is set directly",
 			"governing privileges per row are written in harness/c05.go from the property statement and cross-checked with Spec.governing",
@@ -1071,6 +1124,60 @@ func init() {
 			runRow(c, r, rowBitmaps(r))
 			c.Dist("row/" + r.name)
 			c.Sample(map[string]any{"family": "decision-table-delayed", "row": r.name, "governing": r.governing, "bitmaps": len(rowBitmaps(r))})
+		}})
+		// several sessions on ONE account; an administrator's set-user revokes / grants a privilege; then the governed
+		// request comes from the first, second or third of those sessions (client list order).  What counts is what the
+		// ACCOUNT holds at the time of the request.
+		var single []*row
+		for _, r := range plain {
+			if len(r.governing) == 1 && !r.anyName && r.multi == nil {
+				single = append(single, r)
+			}
+		}
+		x.Add(&Family{Name: "set-user-sessions", Quick: len(single) * 6, Thor: len(single) * 6 * 3, Run: func(c *Case) {
+			idx := tableIndex(c, len(single)*6*3)
+			r := single[idx/6%len(single)]
+			revoke := idx%2 == 0
+			k := idx / 2 % 3
+			g := r.governing[0]
+			var base [8]byte
+			switch c.R.Intn(3) {
+			case 0:
+				base = maskDefined(allOnes())
+			case 1:
+				base = maskDefined(randBitmap(c.R))
+			}
+			with, without := hotline.AccessBitmap(withBit(base, g)), hotline.AccessBitmap(withoutBit(base, g))
+			login, now := with, without
+			mode := "revoke"
+			if !revoke {
+				login, now = without, with
+				mode = "grant"
+			}
+			invokeAfter(c, r, login, now, func(w *world) string {
+				c.Note("history", fmt.Sprintf("3 sessions on one account; set-user %ss privilege %d; request from session #%d", mode, g, k+1))
+				// two more sessions on the requester's account, then the administrator edits the account
+				e1, c1 := directClientWith(w.ts, "req", "10.0.0.3:1", login)
+				e2, c2 := directClientWith(w.ts, "req", "10.0.0.4:1", login)
+				e1.UserName, e2.UserName = []byte("req-name"), []byte("req-name")
+				ad, _ := directClientWith(w.ts, "victim", "10.0.0.5:1", allOnes())
+				_, _, pan := w.ts.Call(ad, mkTran(hotline.TranSetUser, 5, fld(hotline.FieldUserLogin, obf("req")), fld(hotline.FieldUserName, []byte("Req Account")),
+					fld(hotline.FieldUserPassword, []byte{0}), fld(hotline.FieldUserAccess, now[:])))
+				if pan != nil {
+					return fmt.Sprint("set-user panicked: ", pan)
+				}
+				if a := w.ts.Acct.Get("req"); a == nil || a.Access != now {
+					return "the account was not changed"
+				}
+				switch k {
+				case 1:
+					w.rq, w.rqC = e1, c1
+				case 2:
+					w.rq, w.rqC = e2, c2
+				}
+				return ""
+			})
+			c.Dist(fmt.Sprintf("set-user-sessions/%s/session-%d", mode, k+1))
 		}})
 		x.Add(&Family{Name: "random-bitmaps", Quick: 150, Thor: 3000, Run: func(c *Case) {
 			r := &rows[c.R.Intn(len(rows))]
